@@ -321,6 +321,11 @@ func c04Case(c *core.Ctx) *core.Result {
 			if ft == "nested-table" {
 				nested = true
 			}
+			if ft == "toc-paragraphs" && strings.Contains(strings.Join(edits, ","), "TOC") {
+				// the entries of a table of contents are the library's to rewrite when it is asked to refresh or regenerate one;
+				// every other run text of the opened body has to be there
+				nested = true
+			}
 		}
 		if nested {
 			// a cell that holds paragraphs around a nested table: the statement protects the text, not the order inside such a cell
